@@ -241,6 +241,74 @@ def extract_enums(repo, notes):
     return out
 
 
+PANIC_FILES = ["passage-packets/src/reader.rs", "passage-protocol/src/connection.rs",
+               "passage-protocol/src/crypto/mod.rs", "passage-protocol/src/crypto/stream.rs", "passage-protocol/src/error.rs"]
+PANIC_PATTERNS = [
+    ("expect", r"\.expect\("), ("unwrap", r"\.unwrap\(\)"), ("panic", r"\b(panic|unreachable|todo|unimplemented|assert|assert_eq|assert_ne|debug_assert)!\("),
+    ("index", r"[\w\)\]]\[[^\]\n]*\]"), ("cast", r"\bas\s+(usize|u8|u16|u32|u64|u128|i8|i16|i32|i64|VarInt|VarLong|Protocol)\b"),
+    ("alloc", r"vec!\[[^;\]]+;\s*[^\]\d][^\]]*\]|with_capacity\(\s*[^\)\d][^\)]*\)"),
+    ("arith", r"[\w\)]\s(\+|-|\*|<<)\s[\w\(]"),
+]
+
+
+def strip_rust_comments(src):
+    out = []
+    i = 0
+    n = len(src)
+    while i < n:
+        if src.startswith("//", i):
+            j = src.find("\n", i)
+            i = n if j < 0 else j
+        elif src.startswith("/*", i):
+            j = src.find("*/", i)
+            i = n if j < 0 else j + 2
+        elif src[i] == '"':
+            j = i + 1
+            while j < n and src[j] != '"':
+                j += 2 if src[j] == "\\" else 1
+            out.append('""')
+            i = j + 1
+        else:
+            out.append(src[i])
+            i += 1
+    return "".join(out)
+
+
+def extract_panic_sites(repo, notes):
+    """every syntactic panic / cast / allocation / arithmetic site of the anchored files, keyed by
+    (file, enclosing fn, kind, normalised line text) — not by line number"""
+    import hashlib
+    sites = []
+    for rel in PANIC_FILES:
+        src = read(repo, rel)
+        if src is None:
+            notes.append(f"extraction: unparsed panic sites ({rel} unreadable)")
+            return None
+        t = src.find("#[cfg(test)]\nmod tests")
+        if t >= 0:
+            src = src[:t]
+        src = strip_rust_comments(src)
+        fn = "<top>"
+        for line in src.split("\n"):
+            m = re.search(r"\bfn\s+(\w+)", line)
+            if m:
+                fn = m.group(1)
+            text = re.sub(r"\s+", "", line)
+            if not text or text.startswith("#[") or text.startswith("use"):
+                continue
+            for kind, pat in PANIC_PATTERNS:
+                if re.search(pat, line):
+                    if kind == "index" and re.search(r"(vec!\[|&\[\]|:\s*\[|=\s*\[|\[\(&|\[u8;|#\[)", line) and not re.search(r"\w\[[^\];]*\.\.[^\]]*\]|\w\[\w+\]", line):
+                        continue
+                    if kind == "arith" and (re.search(r"\bfn\b|\bimpl\b|\bwhere\b|->", line) or re.search(r"^\s*\w+\s*:\s*[A-Z]\w*(\s*\+\s*[A-Z]\w*)*\s*,?\s*$", line) or re.search(r"[A-Z]\w*\s\+\s[A-Z]\w*", line)):
+                        continue
+                    key = f"{rel}|{fn}|{kind}|{text}"
+                    h = int.from_bytes(hashlib.sha256(key.encode()).digest()[:6], "big")
+                    if all(h != x for x, _ in sites):
+                        sites.append((h, key))
+    return sites
+
+
 def main():
     repo, out = sys.argv[1], sys.argv[2]
     os.makedirs(out, exist_ok=True)
@@ -291,6 +359,17 @@ def main():
     body += "\nend Passage.Extracted\n"
     write_if_changed(os.path.join(out, "Packets.lean"), body)
     print(f"extracted packets: {None if facts is None else len(facts)}; enums: {enums}")
+    sites = extract_panic_sites(repo, notes)
+    body = "/- GENERATED by extract/extract.py from /repo on every run — do not edit. -/\nnamespace Passage.Extracted\n\n"
+    if sites is None:
+        body += "def panicSites : Option (List Nat) := none\n"
+    else:
+        body += "/-- hash of (file | fn | kind | normalised line) for every syntactic panic, cast, sized\n    allocation or arithmetic site of the files anchored by C04 -/\ndef panicSites : Option (List Nat) := some [\n"
+        body += ",\n".join(f"  {h} /- {k.replace('-/', '- /')} -/" for h, k in sites)
+        body += "]\n"
+    body += "\nend Passage.Extracted\n"
+    write_if_changed(os.path.join(out, "PanicSites.lean"), body)
+    print(f"extracted panic sites: {None if sites is None else len(sites)}")
     for n in notes:
         print(n)
 
